@@ -226,11 +226,11 @@ func init() {
 			"x-folded": {"first second"}, "content-type": {"text/plain; charset=us-ascii"}},
 		body: m0Body,
 		sections: map[string]string{
-			"":       m0Header + "\r\n" + m0Body,
-			"HEADER": m0Header + "\r\n",
-			"TEXT":   m0Body,
-			"1":      m0Body, // a non-multipart message has exactly part 1 = its body
-			"HEADER.FIELDS (SUBJECT X-FOLDED NOPE)":     "Subject: Hello World\r\nX-Folded: first\r\n second\r\n\r\n",
+			"":                                      m0Header + "\r\n" + m0Body,
+			"HEADER":                                m0Header + "\r\n",
+			"TEXT":                                  m0Body,
+			"1":                                     m0Body, // a non-multipart message has exactly part 1 = its body
+			"HEADER.FIELDS (SUBJECT X-FOLDED NOPE)": "Subject: Hello World\r\nX-Folded: first\r\n second\r\n\r\n",
 			"HEADER.FIELDS.NOT (SUBJECT X-FOLDED NOPE)": hdrMinus(m0Header, "subject", "x-folded") + "\r\n",
 		},
 		nonexistent: map[string]bool{"2": true, "3": true, "1.2.3": true, "2.1": true},
@@ -242,14 +242,14 @@ func init() {
 			"content-type": {"multipart/mixed; boundary=\"b1\""}},
 		body: m1Body,
 		sections: map[string]string{
-			"":       m1Header + "\r\n" + m1Body,
-			"HEADER": m1Header + "\r\n",
-			"TEXT":   m1Body,
-			"1":      m1P1Body,
-			"1.MIME": m1P1Mime + "\r\n",
-			"2":      m1P2Body,
-			"2.MIME": m1P2Mime + "\r\n",
-			"HEADER.FIELDS (SUBJECT X-FOLDED NOPE)":     "Subject: Report attached\r\n\r\n",
+			"":                                      m1Header + "\r\n" + m1Body,
+			"HEADER":                                m1Header + "\r\n",
+			"TEXT":                                  m1Body,
+			"1":                                     m1P1Body,
+			"1.MIME":                                m1P1Mime + "\r\n",
+			"2":                                     m1P2Body,
+			"2.MIME":                                m1P2Mime + "\r\n",
+			"HEADER.FIELDS (SUBJECT X-FOLDED NOPE)": "Subject: Report attached\r\n\r\n",
 			"HEADER.FIELDS.NOT (SUBJECT X-FOLDED NOPE)": hdrMinus(m1Header, "subject") + "\r\n",
 		},
 		nonexistent: map[string]bool{"3": true, "1.2.3": true},
@@ -295,18 +295,18 @@ func init() {
 			"mime-version": {"1.0"}, "content-type": {"text/plain; charset=utf-8"}, "content-transfer-encoding": {"8bit"}},
 		body: m3Body,
 		sections: map[string]string{
-			"":       m3Header + "\r\n" + m3Body,
-			"HEADER": m3Header + "\r\n",
-			"TEXT":   m3Body,
-			"1":      m3Body,
-			"HEADER.FIELDS (SUBJECT X-FOLDED NOPE)":     "Subject: =?utf-8?q?Gr=C3=BC=C3=9Fe?=\r\n\r\n",
+			"":                                      m3Header + "\r\n" + m3Body,
+			"HEADER":                                m3Header + "\r\n",
+			"TEXT":                                  m3Body,
+			"1":                                     m3Body,
+			"HEADER.FIELDS (SUBJECT X-FOLDED NOPE)": "Subject: =?utf-8?q?Gr=C3=BC=C3=9Fe?=\r\n\r\n",
 			"HEADER.FIELDS.NOT (SUBJECT X-FOLDED NOPE)": hdrMinus(m3Header, "subject") + "\r\n",
 		},
 		nonexistent: map[string]bool{"2": true, "3": true, "1.2.3": true, "2.1": true},
 	}
 	M4 := &corpusMsg{name: "header-only", raw: m4Raw, sentY: 2024, sentM: 3, sentD: 10,
 		header: map[string][]string{"from": {"gina@example.org"}, "subject": {"only header"}, "date": {"Sun, 10 Mar 2024 23:59:59 +0000"}},
-		body: "",
+		body:   "",
 		sections: map[string]string{
 			"":     m4Raw,
 			"TEXT": "",
@@ -322,10 +322,10 @@ func init() {
 			"date": {"Mon, 11 Mar 2024 00:00:01 +0000"}, "mime-version": {"1.0"}, "content-type": {"multipart/mixed; boundary=zz"}},
 		body: m5Body,
 		sections: map[string]string{
-			"":       m5Header + "\r\n" + m5Body,
-			"HEADER": m5Header + "\r\n",
-			"TEXT":   m5Body,
-			"HEADER.FIELDS (SUBJECT X-FOLDED NOPE)":     "Subject: truncated\r\n\r\n",
+			"":                                      m5Header + "\r\n" + m5Body,
+			"HEADER":                                m5Header + "\r\n",
+			"TEXT":                                  m5Body,
+			"HEADER.FIELDS (SUBJECT X-FOLDED NOPE)": "Subject: truncated\r\n\r\n",
 			"HEADER.FIELDS.NOT (SUBJECT X-FOLDED NOPE)": hdrMinus(m5Header, "subject") + "\r\n",
 		},
 		nonexistent: map[string]bool{"1": true, "2": true, "3": true, "1.1": true, "2.1": true, "1.2.3": true},
